@@ -173,7 +173,7 @@ known("C09", r"^cli_assembler\|asm/cas/append/bigcas/\w+\|C09:append-proceeds\|"
 known("C09", r"^vfile_history\|history/(cas|dsk)/[^|]*\|(C09:history|C09:addition-succeeds)\|history/(cas|dsk)/[\d,]*\b0\b[\d,]*:",
       "after an empty file was stored, a later --append loses it and the following files (cassette) or fails to re-open the image (disk)",
       {"files": "history: add empty file, save, re-open, add another"}, also=("C06", "C07"))
-known("C10", r"^(cli_assembler\|asm/cas/append/(raw|arbitrary)/\w+\|C10:(unchanged-other-kind|told-why)|cli_fileutil\|fu/existing-target/dsk-to-cas/raw/append\|C10:(unchanged|told-why))\|",
+known("C10", r"^(cli_assembler\|asm/cas/append/(raw|arbitrary)/\w+\|C10:(unchanged-other-kind|told-why)|cli_fileutil\|fu/existing-target/dsk-to-cas/raw/append\|C10:(unchanged|told-why)|cli_fileutil\|fu/matrix/(cas|dsk)-to-cas/(raw|arbitrary)/append\|C10:(unchanged-other-kind|told-why))\|",
       "--to_cas --append onto an existing file that is NOT a cassette image (raw binary, arbitrary bytes) overwrites it: any file "
       "without a tape header is sniffed as an empty cassette", {"cli": "assembler.py prog.asm --to_cas raw.bin --append"})
 known("C16", r"^cli_fileutil\|fu/cas-to-(cas|dsk)/lower/files=\w+\|C16:selection\|",
